@@ -1,0 +1,71 @@
+//go:build verif
+
+package rest
+
+import (
+	"github.com/inbucket/inbucket/v3/pkg/msghub"
+)
+
+// VerifListener gives verification harnesses access to the real WebSocket message listeners
+// without a socket: Take stands in for the socket writer taking one queued event.
+// Verification hook: compiled only with the "verif" build tag.
+type VerifListener interface {
+	msghub.Listener
+	// Close is the listener's own Close (called by the socket reader and writer on disconnect).
+	Close()
+	// Take removes one queued event without blocking.  variant is "message-stored" or
+	// "message-deleted"; got is false when the queue is empty; open is false when the queue
+	// has been closed.
+	Take() (variant, mailbox, id string, got, open bool)
+	// Queued returns the number of events currently queued for the socket.
+	Queued() int
+}
+
+type verifListenerV1 struct{ *msgListenerV1 }
+
+func (l verifListenerV1) Take() (string, string, string, bool, bool) {
+	select {
+	case m, ok := <-l.c:
+		if !ok {
+			return "", "", "", false, false
+		}
+		return "message-stored", m.Mailbox, m.ID, true, true
+	default:
+		return "", "", "", false, true
+	}
+}
+
+func (l verifListenerV1) Queued() int { return len(l.c) }
+
+type verifListenerV2 struct{ *msgListenerV2 }
+
+func (l verifListenerV2) Take() (string, string, string, bool, bool) {
+	select {
+	case m, ok := <-l.c:
+		if !ok {
+			return "", "", "", false, false
+		}
+		if m.Header != nil {
+			return m.Variant, m.Header.Mailbox, m.Header.ID, true, true
+		}
+		if m.Identifier != nil {
+			return m.Variant, m.Identifier.Mailbox, m.Identifier.ID, true, true
+		}
+		return m.Variant, "", "", true, true
+	default:
+		return "", "", "", false, true
+	}
+}
+
+func (l verifListenerV2) Queued() int { return len(l.c) }
+
+// VerifNewListenerV1 creates and registers a real v1 socket listener (as MonitorAllMessagesV1 /
+// MonitorMailboxMessagesV1 do after the upgrade).
+func VerifNewListenerV1(hub *msghub.Hub, mailbox string) VerifListener {
+	return verifListenerV1{newMsgListenerV1(hub, mailbox)}
+}
+
+// VerifNewListenerV2 creates and registers a real v2 socket listener.
+func VerifNewListenerV2(hub *msghub.Hub, mailbox string) VerifListener {
+	return verifListenerV2{newMsgListenerV2(hub, mailbox)}
+}
